@@ -34,6 +34,32 @@ class Guarded(HTML):
         return seq[i]
 
 
+class Obj:
+    def __init__(self, who):
+        self.who = who
+
+
+class TNode:
+    def __init__(self, name, kids=()):
+        self.name, self._kids = name, list(kids)
+
+    def kids(self):
+        return self._kids
+
+    def tpId(self):
+        return self.name
+
+    def tpURL(self):
+        return self.name
+
+
+class Resp:
+    def setCookie(self, *a, **k):
+        pass
+
+
+import TreeDisplay      # noqa: E402,F401
+
 DATA = [{'a': 2, 'b': 1, 'i': 0}, {'a': 1, 'b': 2, 'i': 1}, {'a': 3, 'b': 0, 'i': 2}]
 SUB = None
 
@@ -69,6 +95,10 @@ SCEN = {
                     {'A': dict(s=DATA, k='a', w={'q': 'A'}), 'B': dict(s=DATA, k='b', w={'q': 'B'})}),
     'try_error_tb': (lambda: HTML('<dtml-try><dtml-var "10/q2"><dtml-var missingname><dtml-except ZeroDivisionError>Z[<dtml-var error_type>|<dtml-var "_.len(error_tb) > 0">|<dtml-var "\'KeyError\' in error_tb">]<dtml-except>K[<dtml-var error_type>|<dtml-var "\'ZeroDivision\' in error_tb">]</dtml-try>'), True,
                      {'A': dict(q2=0), 'B': dict(q2=5)}),
+    'with_only': (lambda: HTML('<dtml-with w only mapping><dtml-var who>-<dtml-var "_.has_key(\'x\')">-<dtml-in s mapping><dtml-var a></dtml-in></dtml-with>|<dtml-with o only><dtml-var who></dtml-with>'), True,
+                  {'A': dict(w={'who': 'alice', 's': DATA[:2]}, o=Obj('oa'), x=1), 'B': dict(w={'who': 'bob', 's': DATA[1:]}, o=Obj('ob'))}),
+    'tree': (lambda: HTML('<dtml-tree root branches=kids><dtml-var name></dtml-tree>'), True,
+             {'A': dict(root=TNode('ra', [TNode('a1'), TNode('a2')]), URL='u', RESPONSE=Resp(), expand_all=1), 'B': dict(root=TNode('rb', [TNode('b1')]), URL='v', RESPONSE=Resp())}),
     'vars_fmt': (lambda: HTML('<dtml-var x fmt="%05d"> <dtml-var t size=3 etc=".."> <dtml-var n null="nil"> <dtml-var u upper html_quote>&dtml.url_quote-u;'), True,
                  {'A': dict(x=1, t='abcdef', n=None, u='a<b'), 'B': dict(x=22, t='xy', n=3, u='c d')}),
 }
@@ -95,7 +125,7 @@ def make(name):
         if v == 'unsat':
             res.update(status='confirmed', message=r['message'])
         elif v == 'violation':
-            res.update(status='refuted', cex={'scenario': name, 'schedule': r['schedule']},
+            res.update(status='refuted', cex={'scenario': name, 'schedule': r['schedule'], 'amplify': r.get('amplify')},
                        message='%s; replay on real threads: %r' % (r['message'], r['differs']))
         else:
             res.update(status='inconclusive', message='%s: %s' % (v, r.get('message')))
@@ -107,6 +137,15 @@ def replay(cex):
     name, order = cex['scenario'], cex['schedule']
     mk, cooked, inputs = SCEN.get(name) or THREE[name]
     worst = None
+    amp = cex.get('amplify')
+    if amp:
+        # cumulative corruption: re-run the deterministic amplification (steady-state traces, solver-made schedule, repeated
+        # gated replays on ONE template object) and report the first round whose thread results differ from the solo results
+        rnd, differs, done = schedsmt.amplify(mk, inputs, cooked, call_kw, tuple(amp['loc']))
+        if rnd is not None:
+            return False, ('scenario %s: race on %s.%s; after %d overlapping renderings of one template object (same interleaving each time) a thread no longer gets its '
+                           'solo result: %r' % (name, amp['loc'][0], amp['loc'][1], rnd, {k: (repr(a)[:100], repr(b)[:100]) for k, (a, b) in differs.items()}))
+        return True, 'amplification (%d rounds) did not reproduce a difference' % done
     for attempt in range(3):
         traces, solo = schedsmt.run_solo(mk, inputs, cooked, call_kw)
         got = schedsmt.replay(mk, inputs, cooked, call_kw, order)
